@@ -65,6 +65,10 @@ def run(ctx):
             if name in gen.SMBO and name != "LipschitzOptimizer":
                 cfg = {}
             tasks.append((name, sd + 1000 * (ctx.seed % 7), ndim, size, kind, n_iter, cfg))
+            # model-based optimizers also with candidate sub-sampling switched on (sampling={"random": k} below the space size):
+            # the proposal then goes through the per-iteration candidate subset
+            if name in gen.SMBO and name != "LipschitzOptimizer":
+                tasks.append((name, sd + 1000 * (ctx.seed % 7), ndim, size, kind, n_iter, {"sampling": {"random": 40}}))
     with mp.get_context("fork").Pool(min(NPROC, 16)) as pool:
         results = pool.map(one_pair, tasks, chunksize=1)
     by = {}
@@ -75,9 +79,9 @@ def run(ctx):
         if "error" in r:
             ctx.blocked.append(dict(task=jsonable(r["task"]), exc=r["error"]))
             continue
-        by.setdefault(name, []).append(r)
+        by.setdefault(name if not r["task"][6] else "%s %r" % (name, r["task"][6]), []).append(r)
     for name, rs in by.items():
-        if name in BLIND:
+        if name.split(" ")[0] in BLIND:
             bad = [r for r in rs if not r["same_points"]]
             if bad:
                 ctx.violation(dict(kind="score-blind-differs", optimizer=name), dict(optimizer=name, tasks=[jsonable(r["task"]) for r in bad[:3]]),
@@ -85,7 +89,7 @@ def run(ctx):
             continue
         wins = sum(1 for r in rs if r["mean_pos"] > r["mean_neg"])
         if wins * 4 < len(rs) * 3:
-            ctx.violation(dict(kind="not-directed", optimizer=name),
+            ctx.violation(dict(kind="not-directed", optimizer=name.split(" ")[0]),
                           dict(optimizer=name, wins=wins, seeds=len(rs), runs=[dict(task=jsonable(r["task"]), mean_f_when_maximising_f=r["mean_pos"],
                                                                                   mean_f_when_maximising_minus_f=r["mean_neg"]) for r in rs]),
                           "%s: maximising f gives higher second-half f-values than maximising -f in only %d of %d paired runs" % (name, wins, len(rs)))
